@@ -2,6 +2,7 @@ package main
 
 import (
 	"fmt"
+	"github.com/Vedant9500/WTF/internal/recovery"
 	"math/rand"
 	"os"
 	"os/exec"
@@ -228,7 +229,54 @@ func engineNotebook(ctx *Ctx) {
 			for i := r.Intn(3); i > 0; i-- {
 				e.Platforms = append(e.Platforms, []string{"linux", "macos", "windows", "cross-platform", "my os", "null", "123"}[r.Intn(7)])
 			}
-			if pipelineCmd {
+			// an earlier plain save repeated with every field as before except that its keyword list is split differently: two
+			// keywords become one that contains the comma (quoted as the flag's CSV syntax wants it), or the other way round
+			resplit := false
+			if !pipelineCmd && r.Intn(8) == 0 {
+				for _, m := range model {
+					if m.UserKeywords != nil || m.AutoDesc || m.Pipeline || strings.ContainsAny(m.Command+m.Description, "\x00") {
+						continue
+					}
+					okPl := true
+					for _, pl := range m.Platforms { // only lists the flag's CSV syntax can carry unchanged
+						if strings.TrimSpace(pl) == "" || strings.ContainsAny(pl, ",\"\n\r") {
+							okPl = false
+						}
+					}
+					if !okPl || strings.HasPrefix(m.Command, "-") {
+						continue
+					}
+					var nk []string
+					switch {
+					case len(m.Keywords) >= 2 && !strings.ContainsAny(strings.Join(m.Keywords, ""), ",\"\n\r"):
+						nk = []string{strings.Join(m.Keywords, ",")}
+					case len(m.Keywords) == 1 && strings.Contains(m.Keywords[0], ",") && !strings.ContainsAny(m.Keywords[0], "\"\n\r"):
+						nk = strings.Split(m.Keywords[0], ",")
+					default:
+						continue
+					}
+					e = c08Entry{Command: m.Command, Description: m.Description, Niche: m.Niche, Platforms: m.Platforms, Keywords: nk}
+					args = []string{"save"}
+					if len(nk) == 1 {
+						args = append(args, "--keywords=\""+nk[0]+"\"")
+					} else {
+						args = append(args, "--keywords="+strings.Join(nk, ","))
+					}
+					if e.Niche != "" {
+						args = append(args, "--category="+e.Niche)
+					}
+					if len(e.Platforms) > 0 {
+						args = append(args, "--platforms="+strings.Join(e.Platforms, ","))
+					}
+					args = append(args, "--", e.Command, e.Description)
+					resplit = true
+					ctx.R.Path("re-saves-with-the-keyword-list-split-differently", 1)
+					break
+				}
+			}
+			if resplit {
+				// args are complete
+			} else if pipelineCmd {
 				name := c08Simple(r)
 				args = []string{"save-pipeline"}
 				e.Pipeline = true
@@ -369,8 +417,42 @@ func engineNotebook(ctx *Ctx) {
 					}
 				})
 			}
+			// the search command loads through the retrying loader: when the main file is unreadable for the first attempts (being
+			// rewritten by a sync tool, say) and fine afterwards, what is searched is still main entries followed by notebook entries
+			if mainKind == "generated" && s%4 == 1 {
+				ctx.R.Guard("C08", "LoadDatabaseWithFallback", cs, func() {
+					good, _ := os.ReadFile(mainP)
+					repairAt := 1 + r.Intn(2)
+					os.WriteFile(mainP, []byte("- command: \"half written\n  descr"), 0o644)
+					recovery.VerifSetObserver(&recovery.VerifObserver{OnAttempt: func(n int, err error) {
+						if n == repairAt {
+							os.WriteFile(mainP, good, 0o644)
+						}
+					}})
+					m, err := recovery.NewDatabaseRecovery(recovery.RetryConfig{MaxAttempts: 3, BaseDelay: time.Microsecond, MaxDelay: 10 * time.Microsecond, BackoffFactor: 2}).LoadDatabaseWithFallback(mainP, h.Personal())
+					recovery.VerifSetObserver(nil)
+					os.WriteFile(mainP, good, 0o644)
+					ctx.R.Path("merge-checked-after-transient-main-failure", 1)
+					ok := err == nil && m != nil && len(m.Commands) == len(mainCmds)+len(model)
+					for i := 0; ok && i < len(mainCmds); i++ {
+						ok = m.Commands[i].Command == mainCmds[i].Command
+					}
+					for i := 0; ok && i < len(model); i++ {
+						ok = c08Match(m.Commands[len(mainCmds)+i], model[i]) == ""
+					}
+					if !ok {
+						n := -1
+						if m != nil {
+							n = len(m.Commands)
+						}
+						ctx.R.Violate(vlib.Violation{Property: "C08", Clause: "merge", Path: "LoadDatabaseWithFallback/transient-main-failure",
+							Detail:  fmt.Sprintf("the main file was unreadable for the first %d load attempt(s) and fine afterwards: the database handed to the search has %d entries (error %v) instead of main (%d) followed by notebook (%d)", repairAt, n, err, len(mainCmds), len(model)),
+							Witness: cs})
+					}
+				})
+			}
 			// searchable by the next search (process level): the unique marker word of the description
-			if (!e.AutoDesc || kwMarker != "") && s%2 == 0 {
+			if !resplit && (!e.AutoDesc || kwMarker != "") && s%2 == 0 {
 				word := marker
 				if e.AutoDesc || (kwMarker != "" && r.Intn(2) == 0) {
 					word = kwMarker
